@@ -8,6 +8,13 @@ pub mod c05;
 pub mod c06;
 pub mod c07;
 pub mod c08;
+pub mod c09;
+pub mod c10;
+pub mod c11;
+pub mod c12;
+pub mod c13;
+pub mod inc;
+pub mod sys;
 pub mod vaults;
 pub mod pools;
 
@@ -21,6 +28,11 @@ pub fn dispatch(ctx: &Ctx) -> Option<(CheckMeta, Acc)> {
         "C06" => Some(c06::run(ctx)),
         "C07" => Some(c07::run(ctx)),
         "C08" => Some(c08::run(ctx)),
+        "C09" => Some(c09::run(ctx)),
+        "C10" => Some(c10::run(ctx)),
+        "C11" => Some(c11::run(ctx)),
+        "C12" => Some(c12::run(ctx)),
+        "C13" => Some(c13::run(ctx)),
         _ => None,
     }
 }
